@@ -43,6 +43,7 @@ class Profile:
         self.n_nodes = rng.randint(*b.get("n_nodes", (5, 34)))
         self.max_depth = rng.randint(*b.get("max_depth", (2, 6)))
         self.max_size = b.get("max_size", 250)
+        self.arity = b.get("arity", [0, 1, 2, 2, 2, 3, 3, 4])
         self.share = rng.choice(b.get("share", [0.05, 0.15, 0.3, 0.3, 0.5, 0.7]))
         self.trip_prob = rng.choice(b.get("trip_prob", [0.0, 0.1, 0.2, 0.35]))
         self.group_prob = rng.choice(b.get("group_prob", [0.0, 0.0, 0.1, 0.25]))
@@ -400,7 +401,7 @@ def gen_world(rng, pr):
                 cand = ({"op": op}, ks)
                 special = True
             elif op in lib.NARY:
-                ar = rng.choice([0, 1, 2, 2, 2, 3, 3, 4])
+                ar = rng.choice(pr.arity)
                 ks = [pick_kid() for _ in range(ar)]
                 if ks and rng.random() < pr.dup_prob:
                     # repeated terms / factors (x + y + x + y): like-term handling is order-sensitive code
@@ -765,6 +766,12 @@ def gen_steps(rng, pr, nodes, info, all_vars, points):
     return steps
 
 
+# larger inputs than a test would write: wide n-ary nodes, deep nesting, many variables (an explicit-stack
+# walk, a chunked reset, a size-dependent fast path only show there)
+BIG_BASE = {"arity": [2, 3, 5, 8, 8, 12, 16], "max_depth": (8, 16), "n_ord": (4, 9), "n_nodes": (30, 70),
+            "n_steps": (10, 30), "share": [0.3, 0.5, 0.7]}
+
+
 def gen_scenario(rng, base=None):
     pr = Profile(rng, base)
     nodes, info, ord_vars, trip_vars, miss_vars = gen_world(rng, pr)
@@ -775,6 +782,52 @@ def gen_scenario(rng, base=None):
         steps = sweep_steps(rng, pr, nodes, info, points, steps)
     scn = {"nodes": nodes, "points": points, "steps": steps, "vars": all_vars + ["absent_v"]}
     _spell_names(rng, pr, scn)
+    return scn
+
+
+def hammer(rng, scn):
+    """Hot loops: one to three query steps of the scenario (an evaluation, a component query, a temporary
+    root) are repeated 30-120 times each on the SAME objects, at the same Point object or alternating between
+    two, spread over the rest of the schedule -- so that a per-object or per-process threshold (a call
+    counter, an eviction limit, "after the n-th call take the fast path") is crossed while other clients keep
+    using the sharing expressions in between."""
+    steps = scn["steps"]
+    cand = [i for i, st in enumerate(steps) if st["k"] in ("at", "compat", "lcomp", "tpat", "tat", "dat")]
+    if not cand:
+        return scn
+    sid = max(st["id"] for st in steps) + 1
+    n_points = len(scn["points"])
+    creator = {f"s{st['id']}": st for st in steps}
+
+    def weight(st):
+        # long-lived derivative objects that change state when used (late Partial / Derivative / component
+        # objects) are the likeliest home of a call counter
+        c = creator.get(st.get("o", ""))
+        if st["k"] == "at" and c is not None and c["k"] in ("mk", "comp") and not c.get("early"):
+            return 6
+        if st["k"] in ("compat", "dat", "lcomp"):
+            return 2
+        return 1
+    ws = [weight(steps[i]) for i in cand]
+    chosen = []
+    for _ in range(rng.randint(1, 4)):
+        i = _wchoice(rng, cand, ws)
+        if i not in chosen:
+            chosen.append(i)
+    for src in [steps[i] for i in chosen]:
+        reps = rng.randint(30, 120)
+        alt = rng.randrange(n_points) if ("p" in src and "num" not in src and src["k"] != "lcomp") else None
+        alt_prob = rng.choice([0.0, 0.1, 0.4])
+        at = steps.index(src)
+        for _ in range(reps):
+            cp = dict(src, id=sid)
+            sid += 1
+            if alt is not None and rng.random() < alt_prob:
+                cp["p"] = alt
+            # mostly in a tight burst right behind the original, sometimes anywhere later
+            lo = at + 1
+            hi = len(steps) if rng.random() < 0.3 else min(len(steps), at + 1 + 2 * reps)
+            steps.insert(rng.randint(lo, hi), cp)
     return scn
 
 
